@@ -19,6 +19,7 @@
 #include <amgcl/relaxation/ilu0.hpp>
 #include <amgcl/relaxation/damped_jacobi.hpp>
 #include <amgcl/preconditioner/schur_pressure_correction.hpp>
+#include <functional>
 #include "c18_common.hpp"
 
 using namespace vf18;
@@ -268,10 +269,12 @@ static LV join(const SchurCase &s, const LV &u, const LV &p) {
 static double g_worst = 0; // calibration aid (printed with VF_C18_CALIB=1)
 
 template <class Schur>
-static void check_apply(const SchurCase &s, const Schur &P, const std::vector<double> &f, const LV *xtrue, const std::string &what, ld tau_u = 0, ld tau_p = 0) {
+static bool check_apply(const SchurCase &s, const Schur &P, const std::vector<double> &f, const LV *xtrue, const std::string &what, ld tau_u = 0, ld tau_p = 0,
+                        const std::function<bool()> &premise = nullptr) {
     std::vector<double> x(s.n, std::nan(""));
     amgcl::backend::numa_vector<double> F(f), X(x);
     P.apply(F, X);
+    if (premise && !premise()) return false; // an inner solve missed the accuracy the reference assumes: nothing is claimed
     LV fu, fp; split(s, tolv(f), fu, fp);
     RefOut r = schur_ref(s, fu, fp, tau_u, tau_p);
     LV ref = join(s, r.u, r.p), bnd = join(s, r.bu, r.bp);
@@ -289,6 +292,7 @@ static void check_apply(const SchurCase &s, const Schur &P, const std::vector<do
             VF_REQUIRE(err <= b, what << ": apply(K x)[" << i << "] = " << X[i] << " but x[" << i << "] = " << static_cast<double>((*xtrue)[i]) << " (|diff| " << static_cast<double>(err) << " > bound " << static_cast<double>(b) << ")");
         }
     }
+    return true;
 }
 
 static std::vector<double> gen_rhs(Tape &t, const SchurCase &s, LV *xtrue, int kind) {
@@ -446,10 +450,58 @@ static void prop_schur_dense(Tape &t, Ctx &c) {
 }
 
 // ------------------------------------------------------------------ prop 2: real amgcl inner solvers, tight GMRES
+// The property's premise is EXACT inner solves.  An iterative inner solver may miss its tolerance (GMRES asked for 1e-14 on a
+// system whose Krylov space is exhausted before the rounding level allows that accuracy divides by a vanishing Hessenberg pivot and
+// returns NaN).  `checked<MS>` forwards to the real solver and measures, after every inner call, the relative residual the call
+// left behind (with the same operator, in double).  A case in which any inner solve left more than the tau assumed by the
+// reference is outside the premise: counted and not asserted.
+struct InnerStats { double worst = 0; long calls = 0, bad = 0; };
+template <class MS>
+class checked {
+  public:
+    typedef typename MS::backend_type backend_type;
+    typedef typename backend_type::matrix matrix;
+    typedef typename backend_type::vector vector;
+    typedef typename backend_type::value_type value_type;
+    typedef typename backend_type::params backend_params;
+    typedef typename amgcl::math::scalar_of<value_type>::type scalar_type;
+    struct params {
+        typename MS::params base; InnerStats *st;
+        params() : st(nullptr) {}
+        params(const boost::property_tree::ptree &p) : base(strip(p)), st(nullptr) { void *v = nullptr; v = p.get("stats", v); st = static_cast<InnerStats *>(v); }
+        static boost::property_tree::ptree strip(boost::property_tree::ptree p) { p.erase("stats"); return p; }
+        void get(boost::property_tree::ptree &p, const std::string &path = "") const { base.get(p, path); }
+    } prm;
+    template <class Matrix>
+    checked(const Matrix &A, const params &p = params(), const backend_params &b = backend_params()) : prm(p), S(A, p.base, b), tmp(amgcl::backend::rows(S.system_matrix())) {}
+    template <class Vec1, class Vec2>
+    std::tuple<size_t, scalar_type> operator()(const Vec1 &rhs, Vec2 &&x) const { auto r = S(rhs, x); measure(S.system_matrix(), rhs, x); return r; }
+    template <class Op, class Vec1, class Vec2>
+    std::tuple<size_t, scalar_type> operator()(const Op &A, const Vec1 &rhs, Vec2 &&x) const { auto r = S(A, rhs, x); measure(A, rhs, x); return r; }
+    const matrix &system_matrix() const { return S.system_matrix(); }
+    std::shared_ptr<matrix> system_matrix_ptr() const { return S.system_matrix_ptr(); }
+    size_t bytes() const { return S.bytes(); }
+    friend std::ostream &operator<<(std::ostream &os, const checked &c) { return os << c.S; }
+  private:
+    MS S;
+    mutable vector tmp;
+    template <class Op, class Vec1, class Vec2>
+    void measure(const Op &A, const Vec1 &rhs, const Vec2 &x) const {
+        if (!prm.st) return;
+        amgcl::backend::residual(rhs, A, x, tmp);
+        long double rr = 0, ff = 0;
+        for (size_t i = 0; i < tmp.size(); ++i) { rr += static_cast<long double>(tmp[i]) * tmp[i]; ff += static_cast<long double>(rhs[i]) * rhs[i]; }
+        double rel = ff > 0 ? static_cast<double>(std::sqrt(rr / ff)) : static_cast<double>(std::sqrt(rr));
+        ++prm.st->calls;
+        if (!(rel == rel) || !std::isfinite(rel)) { ++prm.st->bad; prm.st->worst = std::numeric_limits<double>::infinity(); }
+        else prm.st->worst = std::max(prm.st->worst, rel);
+    }
+};
+
 template <template <class> class RU, template <class> class RP>
 struct RealTypes {
-    typedef amgcl::make_solver<amgcl::relaxation::as_preconditioner<BK, RU>, amgcl::solver::gmres<BK>> US;
-    typedef amgcl::make_solver<amgcl::relaxation::as_preconditioner<BK, RP>, amgcl::solver::gmres<BK>> PS;
+    typedef checked<amgcl::make_solver<amgcl::relaxation::as_preconditioner<BK, RU>, amgcl::solver::gmres<BK>>> US;
+    typedef checked<amgcl::make_solver<amgcl::relaxation::as_preconditioner<BK, RP>, amgcl::solver::gmres<BK>>> PS;
     typedef amgcl::preconditioner::schur_pressure_correction<US, PS> Schur;
 };
 
@@ -457,6 +509,8 @@ template <class Schur>
 static void run_real(Tape &t, Ctx &c, const SchurCase &s) {
     const double tol = 1e-14;
     boost::property_tree::ptree up, pp;
+    InnerStats su, sp;
+    up.put("stats", static_cast<void *>(&su)); pp.put("stats", static_cast<void *>(&sp));
     up.put("solver.tol", tol); up.put("solver.M", static_cast<unsigned>(s.nu + 2)); up.put("solver.maxiter", static_cast<unsigned>(4 * s.nu + 8));
     pp.put("solver.tol", tol); pp.put("solver.M", static_cast<unsigned>(s.np + 2)); pp.put("solver.maxiter", static_cast<unsigned>(4 * s.np + 8));
     auto prm = make_params<Schur>(s, up, pp);
@@ -470,7 +524,11 @@ static void run_real(Tape &t, Ctx &c, const SchurCase &s) {
         // the reference models an inner solve that leaves a relative residual of at most tau = tol + 64 n u kappa-free slack
         ld tau = tol + 8 * static_cast<ld>(s.n) * U;
         bool identity_clause = kind == 0 && s.type == 1 && !s.approx;
-        check_apply(s, P, f, identity_clause ? &xtrue : nullptr, "schur(gmres inner) type " + std::to_string(s.type), tau, tau);
+        su = InnerStats(); sp = InnerStats();
+        bool asserted = check_apply(s, P, f, identity_clause ? &xtrue : nullptr, "schur(gmres inner) type " + std::to_string(s.type), tau, tau,
+                                    [&]() { return su.bad == 0 && sp.bad == 0 && su.worst <= static_cast<double>(tau) && sp.worst <= static_cast<double>(tau); });
+        if (!asserted) { c.label(su.bad || sp.bad ? "inner-solve:non-finite(not asserted)" : "inner-solve:missed-tolerance(not asserted)"); c.nontrivial = false; continue; }
+        c.label("inner-solves:within-tau");
         if (identity_clause) c.label("clause:apply(Kx)==x");
     }
     if (getenv("VF_C18_CALIB")) fprintf(stderr, "worst err/bound %.3g\n", g_worst);
